@@ -206,3 +206,16 @@ def top_level_stmts(fnode) -> list:
             and isinstance(body[0].value.value, str):
         body = body[1:]
     return body
+
+
+def alias_root(fnode, e: ast.AST, depth: int = 6) -> ast.AST:
+    """Follow `x = y` (name to name) definitions only: the first name that is not a plain alias of another name."""
+    cur = e
+    for _ in range(depth):
+        if not isinstance(cur, ast.Name):
+            return cur
+        rd = reaching_def(fnode, cur, cur.id)
+        if rd is None or rd[2] != "assign" or not isinstance(rd[1], ast.Name):
+            return cur
+        cur = rd[1]
+    return cur
